@@ -13,6 +13,7 @@ mod parseobs;
 mod pgen;
 mod c05;
 mod c06;
+mod c14;
 
 pub struct Opts {
     pub seed: u64,
@@ -36,6 +37,7 @@ fn main() {
             "c05" => c05::child_observe(input),
             "c06" => c06::child_observe(input),
             "c06load" => c06::child_load(input),
+            "c14" => c14::child_observe(input),
             _ => "{\"harness_error\":\"unknown mode\"}".to_string(),
         });
         return;
@@ -87,6 +89,7 @@ fn main() {
         "c03" => c02::run(&o, "C03"),
         "c05" => c05::run(&o),
         "c06" => c06::run(&o),
+        "c14" => c14::run(&o),
         _ => {
             eprintln!("unknown property {}", prop);
             std::process::exit(2);
